@@ -214,6 +214,12 @@ class DataPacketReceiver(Elaboratable):
                     # Move to receiving data.
                     m.next = "RECEIVE_PAYLOAD"
 
+                    # A zero-length payload consists only of its CRC; skip directly to checking it,
+                    # treating it as word-aligned.
+                    with m.If(header.dw1[16:] == 0):
+                        m.d.ss += previous_valid.eq(0b1111)
+                        m.next = "CHECK_CRC32"
+
                 # If our data is valid and we're -not- a start of DPP, this isn't for us.
                 # Go back to watching for data.
                 with m.Elif(sink.valid):
